@@ -221,6 +221,10 @@ package network
 //@   ensures same-object: r0 == response
 //@   ensures read-failed: tr_len == old(tr_len) ==> r0.Err != nil && r0.TargetObject == old(response.TargetObject)
 //@   ensures decoded-once: tr_len != old(tr_len) ==> tr_len == old(tr_len)+1 && tr_kind[old(tr_len)] == 1 && tr_fn[old(tr_len)] == simpleAPISelf.ResponseDeserializer && tr_args[old(tr_len)][1] == boxed(target) && r0.Err == tr_err[old(tr_len)]
+// ReadAll_r0 / ReadAll_r1: what the (opaque) ioutil.ReadAll of the body returned.  A failed read is reported as it is and
+// nothing is decoded; otherwise the deserializer gets exactly the bytes read.
+//@   ensures@body read-error-reported-undecoded: ReadAll_r1 != nil ==> tr_len == old(tr_len) && r0.Err == ReadAll_r1
+//@   ensures@body decodes-what-was-read: ReadAll_r1 == nil ==> tr_len == old(tr_len)+1 && tr_args[old(tr_len)][0] == boxed(ReadAll_r0)
 
 // ---------------------------------------------------------------------------------------------------
 // The API constructors.  Three layers, each with its own contract:
@@ -253,6 +257,7 @@ package network
 //@   opt effects=trace
 //@   requires API_WF(simpleAPISelf)
 //@   ensures result: r0 != nil
+//@   ensures context-outlives-the-decoding: _cancel_at == tr_len
 //@   ensures defined-request: DoNewRequest_arg_method == method && DoNewRequest_arg_givenURL == replacePathParams_r0 && replacePathParams_arg_relativeURL == relativeURL && replacePathParams_arg_pathParam == pathParam && DoNewRequest_arg_simpleHTTPSelf == simpleAPISelf.simpleHTTP
 //@   ensures header-is-a-copy: (simpleAPISelf.DefaultHeader == nil ==> DoNewRequest_arg_header == nil) && (simpleAPISelf.DefaultHeader != nil ==> DoNewRequest_arg_header != nil && fresh(DoNewRequest_arg_header) && DoNewRequest_arg_header != simpleAPISelf.DefaultHeader)
 //@   ensures not-built: DoNewRequest_r0.Request == nil ==> tr_len == old(tr_len) && r0.ResponseWithError.Err != nil
@@ -280,6 +285,7 @@ package network
 //@   opt effects=trace
 //@   requires API_WF(simpleAPISelf) && bodySerializer != nil
 //@   ensures result: r0 != nil
+//@   ensures context-outlives-the-decoding: absent(body) || tr_err[old(tr_len)] == nil ==> _cancel_at == tr_len
 //@   ensures serialized-first: !absent(body) ==> tr_len >= old(tr_len)+1 && tr_kind[old(tr_len)] == 1 && tr_fn[old(tr_len)] == bodySerializer && tr_arg[old(tr_len)] == body
 //@   ensures serializer-error: !absent(body) && tr_err[old(tr_len)] != nil ==> tr_len == old(tr_len)+1 && r0.ResponseWithError.Err == tr_err[old(tr_len)]
 //@   ensures defined-request: absent(body) || tr_err[old(tr_len)] == nil ==> DoNewRequestWithBodyOptions_arg_method == method && DoNewRequestWithBodyOptions_arg_givenURL == replacePathParams_r0 && replacePathParams_arg_relativeURL == relativeURL && replacePathParams_arg_pathParam == pathParam && DoNewRequestWithBodyOptions_arg_contentType == contentType && DoNewRequestWithBodyOptions_arg_simpleHTTPSelf == simpleAPISelf.simpleHTTP
@@ -309,6 +315,7 @@ package network
 //@   opt effects=trace
 //@   requires API_WF(simpleAPISelf) && multipartSerializer != nil
 //@   ensures result: r0 != nil
+//@   ensures context-outlives-the-decoding: absent(boxed(body)) || tr_err[old(tr_len)] == nil ==> _cancel_at == tr_len
 //@   ensures serialized-first: !absent(boxed(body)) ==> tr_len >= old(tr_len)+1 && tr_kind[old(tr_len)] == 1 && tr_fn[old(tr_len)] == multipartSerializer && tr_arg[old(tr_len)] == boxed(body)
 //@   ensures serializer-error: !absent(boxed(body)) && tr_err[old(tr_len)] != nil ==> tr_len == old(tr_len)+1 && r0.ResponseWithError.Err == tr_err[old(tr_len)]
 //@   ensures defined-request: absent(boxed(body)) || tr_err[old(tr_len)] == nil ==> DoNewRequestWithBodyOptions_arg_method == method && DoNewRequestWithBodyOptions_arg_givenURL == replacePathParams_r0 && replacePathParams_arg_relativeURL == relativeURL && replacePathParams_arg_pathParam == pathParam && DoNewRequestWithBodyOptions_arg_simpleHTTPSelf == simpleAPISelf.simpleHTTP
